@@ -707,20 +707,20 @@ def replay(sv, rec):
 
 def plan(tier):
     if tier == 'thorough':
-        scale, budget = 14, 1150
+        scale, budget = 20, 1500
     else:
-        scale, budget = 1, 80
+        scale, budget = 1, 85
     cfgs = []
 
     def add(mode, bound, nruns, chunk):
         cfgs.append({'name': f'{mode}-k{bound}', 'mode': mode, 'bound': bound, 'nruns': nruns * scale, 'chunk': chunk})
 
     # fault-free and fault-injecting configurations are separate batches
-    add('plain', 500, 5000, 20)
-    add('plain', 2, 2000, 20)
-    add('nochurn', 500, 1500, 20)
-    add('faults', 500, 3500, 20)
-    add('faults', 2, 1000, 20)
+    add('plain', 500, 3600, 20)
+    add('plain', 2, 1400, 20)
+    add('nochurn', 500, 1000, 20)
+    add('faults', 500, 2400, 20)
+    add('faults', 2, 800, 20)
     return {'budget_s': budget, 'configs': cfgs, 'minimise_budget': 400}
 
 
